@@ -132,14 +132,13 @@ type c28Result struct {
 	status int
 	msg    string
 	frames string
-	note   string // "emptyref": a nameref with an empty target existed when the panic happened
 	ran    bool
 }
 
 func (r c28Result) line() string {
 	switch r.kind {
 	case "panic":
-		return "panic " + hx(r.msg) + " " + hx(r.frames) + " " + hx(r.note)
+		return "panic " + hx(r.msg) + " " + hx(r.frames)
 	case "invariant":
 		return "invariant " + hx(r.msg)
 	case "ok":
@@ -165,13 +164,9 @@ func c28WorkerProg(base string, n int, timeout time.Duration, f []string) (res c
 		c28UnblockFifos(dir)
 		os.RemoveAll(dir)
 	}()
-	var runner *interp.Runner
 	defer func() {
 		if rec := recover(); rec != nil {
 			res = c28Result{kind: "panic", msg: fmt.Sprint(rec), frames: c28Frames(string(debug.Stack()))}
-			if runner != nil && c28HasEmptyNameref(runner) {
-				res.note = "emptyref"
-			}
 		}
 	}()
 	file, err := syntax.NewParser(syntax.Variant(lang)).Parse(strings.NewReader(script), "")
@@ -198,7 +193,6 @@ func c28WorkerProg(base string, n int, timeout time.Duration, f []string) (res c
 	if err != nil {
 		return c28Result{kind: "newerr"}
 	}
-	runner = r
 	ctx, cancel := context.WithTimeout(context.Background(), timeout)
 	defer cancel()
 	err = r.Run(ctx, file)
@@ -218,26 +212,6 @@ func c28WorkerProg(base string, n int, timeout time.Duration, f []string) (res c
 		return c28Result{kind: "invariant", msg: bad, ran: true}
 	}
 	return res
-}
-
-// c28HasEmptyNameref reports whether some scope of the runner holds a nameref with an empty target
-// (C27's dump hook); used only to attribute the panic of the open finding C28-nameref-empty-append.
-func c28HasEmptyNameref(r *interp.Runner) (found bool) {
-	defer func() {
-		if recover() != nil {
-			found = false
-		}
-	}()
-	for _, d := range interp.VerifC27Dump(r) {
-		for _, sc := range d.Scopes {
-			for _, v := range sc.Vars {
-				if v.Kind == int(expand.NameRef) && v.Str == "" {
-					return true
-				}
-			}
-		}
-	}
-	return false
 }
 
 type c28VarsEnv map[string]expand.Variable
@@ -601,11 +575,7 @@ func (w *c28Worker) do(req string) c28Result {
 			st, _ := strconv.Atoi(f[1])
 			return c28Result{kind: "ok", status: st, ran: true}
 		case "panic":
-			res := c28Result{kind: "panic", msg: unhx(f[1]), frames: unhx(f[2]), ran: true}
-			if len(f) > 3 {
-				res.note = unhx(f[3])
-			}
-			return res
+			return c28Result{kind: "panic", msg: unhx(f[1]), frames: unhx(f[2]), ran: true}
 		case "invariant":
 			return c28Result{kind: "invariant", msg: unhx(f[1]), ran: true}
 		case "timeout":
@@ -663,10 +633,7 @@ var c28Known = []c28Sig{
 	{"C28-extglob-unterminated", regexp.MustCompile(`regexp: Compile\(.*\\x00`), nil, nil},
 }
 
-func c28Classify(msg, frames, note string) string {
-	if strings.Contains(msg, "unexpected conversion of kind 2") && strings.Contains(frames, "interp.(*Runner).assignVal") && note == "emptyref" {
-		return "C28-nameref-empty-append"
-	}
+func c28Classify(msg, frames string) string {
 	for _, s := range c28Known {
 		if !s.msg.MatchString(msg) {
 			continue
